@@ -169,6 +169,32 @@ class Runner:
             evs.append(tail)
         return ",".join(evs) if evs else "-"
 
+    def op_light(self, o) -> None:
+        """execute one operation without observing it (long chains: no per-operation scan of all Deferreds)"""
+        defer = self.defer
+        self.events = []
+        kind, d = o[0], self.ds[o[1]]
+        if kind == "add":
+            k = self.nadd
+            self.nadd += 1
+            cb, eb = o[2], o[3]
+            if cb is not None and eb is not None:
+                d.addCallbacks(self._fn(o[1], k, cb), self._fn(o[1], k, eb))
+            elif cb is not None:
+                d.addCallback(self._fn(o[1], k, cb))
+            else:
+                d.addErrback(self._fn(o[1], k, eb))
+        elif kind == "cb":
+            d.callback(o[2])
+        elif kind == "eb":
+            d.errback(exc_class(o[2])())
+        elif kind == "pause":
+            d.pause()
+        elif kind == "unpause":
+            d.unpause()
+        else:
+            raise ValueError(kind)
+
     def final(self) -> str:
         out = []
         for d in self.ds:
